@@ -32,3 +32,22 @@ package task
 //@   ensures[C13] !running(done)
 //@   ensures[C13] gocount() <= 1 && (locked(ts.prioritizedTasks) > 0 ==> gocount() == 0)
 //@   ensures[C13] gocount() == 1 ==> ch == locked(ts.prioritizedTaskStartNotify)
+
+// Wake-up discipline of prioritizedTaskDoneCond: Broadcast is issued while holding the condition's lock. A waiter
+// checks the counter and calls Wait under that lock; a Broadcast outside it can fall between the check and the Wait
+// and is lost (the waiter then sleeps although no prioritized task runs). lockerHeld tracks the Locker behind c.L.
+//@ ghost lockerHeld map[ref]bool
+//@ func interface sync.Locker.Lock
+//@   modifies lockerHeld[*]
+//@   ensures lockerHeld[payload(self)]
+//@   ensures forall x ref :: x != payload(self) ==> lockerHeld[x] == old(lockerHeld[x])
+//@ func interface sync.Locker.Unlock
+//@   modifies lockerHeld[*]
+//@   ensures !lockerHeld[payload(self)]
+//@   ensures forall x ref :: x != payload(self) ==> lockerHeld[x] == old(lockerHeld[x])
+//@ func (c *sync.Cond) Broadcast
+//@   trusted
+//@   requires[C13] lockerHeld[payload(c.L)]
+//@ func (ts *BackgroundTaskManager) DonePrioritizedTask$1
+//@   props C13
+//@   requires ts != nil && ts.prioritizedTaskDoneCond != nil && ts.prioritizedTaskDoneCond.L != nil
